@@ -50,10 +50,14 @@ func runPool(o *opts) {
 	distinct := map[string]bool{}
 	sc := 0
 	hangs := 0
+outer:
 	for rep := 0; rep < reps; rep++ {
 		for _, sh := range shared {
 			for _, de := range dedicated {
 				for _, shape := range []string{"chain", "wide", "random", "failing"} {
+					if hangs >= 2 {
+						break outer // two hangs are evidence enough; do not wait for more watchdogs
+					}
 					sc++
 					rr := r.fork()
 					gmp := procs[rr.intn(len(procs))]
@@ -112,6 +116,9 @@ func runPool(o *opts) {
 					}
 					t, w := p.do(Cmd{Kind: "commit", Copy: cp}, nil, sp, nil, nil)
 					tagIt(t, "commit")
+					if p.Hung {
+						hangs++
+					}
 					distinct[fmt.Sprintf("%s-%d-%d-%d", shape, sh, de, rep)] = true
 					if !t.OK {
 						rmrf(base)
